@@ -322,17 +322,21 @@ class C06(fw.Check):
     RULE = ('parser level: statements from the documented grammar over a 3-table catalog (NULL-able columns, a '
             'self-referencing key, a twin pair for set operations) restricted to the modelled operators '
             '(comparisons, IS [NOT] NULL, AND/OR/NOT, + - *, Abs, Count/Sum/Min/Max): hand-picked corpus first, then '
-            'random ones (depth <= 2 of nesting) x random table contents (0..6 rows, empty tables, NULLs); each is '
-            'parsed by the real alchemy parser and run on SQLite and DuckDB; a case is distinct by (statement, content) '
-            'and non-trivial when the denoted result is not empty or the statement joins / nests / groups. '
-            'reader level: histories of <= 5 ops {read feed, mutate storage, restart} over two alchemy feeds on two '
-            'SQLite files with equally named tables and two monolite feeds on CSV directories.')
+            'random ones (depth <= 2 of nesting) x 5 random table contents each (0..6 rows, empty tables, NULLs): 600 cases '
+            'quick / 30000 thorough; each is parsed by the real alchemy parser and run on SQLite and DuckDB; a case is '
+            'distinct by (statement, content) and non-trivial when the denoted result is not empty or the statement joins / '
+            'nests / groups. reader level: histories of <= 5 ops {read feed, mutate storage, restart} over two alchemy feeds '
+            'on two SQLite files with equally named tables and two monolite feeds on CSV directories (28 quick / 800 '
+            'thorough, 10 hand-picked first); every segment between restarts runs in a freshly forked process.')
     TRUSTED = [
         'SQLAlchemy rendering of the select constructs, SQLite and DuckDB (the abstract SQL semantics `evalSql` is tied to '
         'them by the correspondence only)',
         'clause semantics shared by the Lean `denote` and `evalSql` (ForML.Model.SqlRel.runQuery / joinRows / setRows); '
         'they are checked against the engines and against the independent Python evaluator c06gen.denote',
         'pandas.read_sql / parquet round trip of the result cache (values are canonicalised by the expected kinds)',
+        'reader level: a "fresh process" is a fork of a zygote that has the third-party libraries loaded but never imported '
+        'forml; forml is imported in the child after FORML_HOME is set (c06_worker.py); feeds are driven through '
+        'feed.producer(feed.sources, feed.features, **feed._readerkw) as io.Feed.load does',
     ]
     ASSUMPTIONS = [
         'DSL object equality is structural on the generated statements (C08)',
@@ -461,11 +465,13 @@ class C06(fw.Check):
             if m_sql is None:
                 self.diverge('model cannot evaluate its SQL', sexp.dumps(g.short(stmt)), 'rows', 'none')
                 continue
-            impl_view = exp if not any(s == SIG_CROSS for _, s in rec['violations']) else cross_as_full(stmt, db)
+            # the model follows the code: outside the balanced region it is judged by the FULL-JOIN reading of CROSS
+            impl_view = exp if balanced else cross_as_full(stmt, db)
             why = impl_view.admits(m_sql[1])
             if why is not None:
                 self.diverge(f'evalSql(parse s) is not an admissible result of the real engines ({why})',
-                             sexp.dumps(g.short(stmt)), {k: repr(v)[:300] for k, v in rec['impl'].items()}, repr(m_sql[1])[:300])
+                             sexp.dumps(g.short(stmt)), {'db': repr(db)[:1500], **{k: repr(v)[:300] for k, v in rec['impl'].items()}},
+                             repr(m_sql[1])[:300])
             if m_den is None or exp.admits(m_den[1]) is not None:
                 self.diverge('Lean denote disagrees with the reference evaluator', sexp.dumps(g.short(stmt)),
                              repr(exp.all_rows)[:300], repr(m_den)[:300])
@@ -493,7 +499,7 @@ class C06(fw.Check):
                     continue
                 if stmt[0] == 'query' and stmt[7] is not None:
                     # a LIMIT that cuts through ties is not a function of the content (and would be cached): never cut
-                    stmt = stmt[:7] + (('rows', 100, 0),)
+                    stmt = stmt[:7] + (('rows', 100000, 0),)
                 pool.append(stmt)
             dbs = [g.gen_db(rng, 0.05) for _ in range(2)] + [gen_db_nonnull(rng) for _ in range(2)]
             ops = []
@@ -822,8 +828,10 @@ class Zygote:
     def __init__(self):
         env = dict(os.environ, PYTHONWARNINGS='ignore')
         env.pop('FORML_HOME', None)
+        # cwd: forml's logging set-up creates `<script name>.log` in the working directory
         self.proc = subprocess.Popen([sys.executable, os.path.join(HERE, 'c06_worker.py'), '--serve'], stdin=subprocess.PIPE,
-                                     stdout=subprocess.PIPE, stderr=subprocess.DEVNULL, text=True, env=env)
+                                     stdout=subprocess.PIPE, stderr=subprocess.DEVNULL, text=True, env=env,
+                                     cwd=tempfile.gettempdir())
         names = sorted(m for m in sys.modules if m != 'forml' and not m.startswith('forml.'))
         self.proc.stdin.write(json.dumps(names) + '\n')
         self.proc.stdin.flush()
